@@ -276,7 +276,17 @@ def _seeded(job: Tuple[str, str]) -> Dict[str, Any]:
         code, fired = _run(pid, Project(root, files, "overlay"))
     except Exception as e:  # pragma: no cover
         return {"property": pid, "variant": name, "kind": "seeded", "result": "error", "why": f"{type(e).__name__}: {e}"}
-    return {"property": pid, "variant": name, "kind": "seeded", "result": "ok" if code == 1 else "FAILED", "exit": code, "fired": fired, "wall_s": round(time.time() - t0, 2)}
+    res = "ok" if code == 1 else "FAILED"
+    if code == 2:
+        # a change that removes the construct a rule is anchored in is REFUSED (exit 2, analysis broken), which is the
+        # designed fail-closed answer; it is accepted only for the changes whose meta.json says so, with the reason
+        try:
+            meta = json.load(open(os.path.join(SEEDED_DIR, sid, "meta.json")))
+        except Exception:
+            meta = {}
+        if meta.get("static_verdict") == "refused":
+            res = "refused"
+    return {"property": pid, "variant": name, "kind": "seeded", "result": res, "exit": code, "fired": fired, "wall_s": round(time.time() - t0, 2)}
 
 
 OBSOLETE_DIR = os.path.join(os.path.dirname(os.path.dirname(os.path.abspath(__file__))), "seeded_obsolete")
@@ -320,11 +330,11 @@ def summarise(res: List[Dict[str, Any]]) -> Dict[str, Any]:
     nh = sum(1 for r in res if r["kind"] == "historic" and r["result"] != "skipped")
     ns = sum(1 for r in res if r["kind"] == "seeded" and r["result"] != "skipped")
     return {
-        "summary": f"breaking {cnt('breaking', 'ok')}/{nb} fired, seeded {cnt('seeded', 'ok')}/{ns} fired, preserving {cnt('preserving', 'ok')}/{np_} silent, historic {cnt('historic', 'ok')}/{nh}, skipped {sum(1 for r in res if r['result'] == 'skipped')}",
+        "summary": f"breaking {cnt('breaking', 'ok')}/{nb} fired, seeded {cnt('seeded', 'ok')}/{ns} fired (+{cnt('seeded', 'refused')} refused with exit 2), preserving {cnt('preserving', 'ok')}/{np_} silent, historic {cnt('historic', 'ok')}/{nh}, skipped {sum(1 for r in res if r['result'] == 'skipped')}",
         "breaking": {"fired": cnt("breaking", "ok"), "of": nb},
         "preserving": {"silent": cnt("preserving", "ok"), "of": np_},
         "historic": {"ok": cnt("historic", "ok"), "of": nh},
-        "seeded": {"fired": cnt("seeded", "ok"), "of": ns},
+        "seeded": {"fired": cnt("seeded", "ok"), "refused_exit2": cnt("seeded", "refused"), "of": ns},
         "failed": [r for r in res if r["result"] in ("FAILED", "error")],
         "skipped": [f"{r['variant']}: {r.get('why')}" for r in res if r["result"] == "skipped"],
         "variants": [{k: r[k] for k in ("variant", "kind", "result") if k in r} for r in res],
@@ -340,7 +350,7 @@ def main(args: Any) -> int:
     t0 = time.time()
     res = run_all(args.repo, only=args.only.upper() if args.only else None, jobs=args.jobs)
     for r in res:
-        flag = {"ok": "ok     ", "FAILED": "FAILED ", "skipped": "skipped", "error": "ERROR  "}[r["result"]]
+        flag = {"ok": "ok     ", "FAILED": "FAILED ", "skipped": "skipped", "error": "ERROR  ", "refused": "refused"}[r["result"]]
         extra = f" exit={r.get('exit')} fired={r.get('fired')}" if r["result"] == "FAILED" else (f" ({r.get('why')})" if r["result"] in ("skipped", "error") else "")
         print(f"{flag} {r['property']} [{r['kind']}] {r['variant']}{extra}")
     s = summarise(res)
